@@ -38,6 +38,7 @@ struct esx_rec {
 
 /* ---- violation reporting from inside apply/teardown ------------------------------------------ */
 static int esx_failed;
+static int esx_in_replay; /* 1 while the engine replays a stored prefix, 0 while the new transition is applied */
 static const struct esx_model *esx_cur;
 static char esx_token[900];
 
@@ -169,6 +170,7 @@ static void esx_expand_item(uint64_t idx, void *ctx) {
         esx_make_token(m, h, n, -1);
         m->reset();
         bool ok = true;
+        esx_in_replay = 1;
         for (int i = 0; i < n; ++i) {
             if (!m->enabled(h[i])) {
                 fprintf(stderr, "ESX: replay divergence (op %d of %s not enabled)\n", i, esx_token);
@@ -180,6 +182,7 @@ static void esx_expand_item(uint64_t idx, void *ctx) {
                 _exit(2);
             }
         }
+        esx_in_replay = 0;
         if (!checked_canon) {
             size_t cn = m->canon(esx_canon_buf, sizeof(esx_canon_buf));
             uint64_t a, b;
